@@ -40,7 +40,7 @@ TInit == Init /\ l = 1
 TMark ==
   /\ IsE(l, "Dir") /\ Tr[l].cmd = "ident" /\ mode = "N" /\ depth = 0
   /\ prog' = <<>> /\ rout' = <<>> /\ rev' = <<>> /\ mout' = <<>> /\ mev' = <<>>
-  /\ UNCHANGED <<depth, sawElse, rstack, rdef, mode, level, celifs, mdef>>
+  /\ UNCHANGED <<depth, sawElse, rstack, rdef, mode, level, celifs, mdef, rpush, ronce, mpush, monce>>
   /\ l' = l + 1
 
 TReset ==
@@ -48,6 +48,7 @@ TReset ==
   /\ prog' = <<>> /\ depth' = 0 /\ sawElse' = <<>>
   /\ rstack' = <<>> /\ rdef' = -1 /\ rout' = <<>> /\ rev' = <<>>
   /\ mode' = "N" /\ level' = 0 /\ celifs' = FALSE /\ mdef' = -1 /\ mout' = <<>> /\ mev' = <<>>
+  /\ rpush' = <<>> /\ ronce' = FALSE /\ mpush' = <<>> /\ monce' = FALSE
   /\ l' = l + 1
 
 \* process_directive
